@@ -199,23 +199,26 @@ float_bounds_case!(c08_float_bounds_lt_gt, 2, 0, 2); float_bounds_case!(c08_floa
 float_bounds_case!(c08_float_bounds_gt_fin, 0, 4, 0);
 
 // ------------------------------------------------------------------ duplicates
-#[kani::proof]
-#[kani::unwind(5)]
-#[kani::stub(syn::Error::new, reject)]
-#[kani::stub(alloc::fmt::format, no_format)]
-pub fn c08_duplicate_validators() {
-    let (k0, k1, k2): (u8, u8, u8) = (kani::any(), kani::any(), kani::any()); kani::assume(k0 < 5 && k1 < 5 && k2 < 5);
-    let n: usize = 3;
-    unsafe { EXPECT_REJECT = (n >= 2 && k0 == k1) || (n >= 3 && (k0 == k2 || k1 == k2)); }
-    kani::cover!(unsafe { EXPECT_REJECT });
-    let items = ManuallyDrop::new([SpannedItem::new(float_validator(k0, 1.0), Span::call_site()), SpannedItem::new(float_validator(k1, 2.0), Span::call_site()),
-                                   SpannedItem::new(float_validator(k2, 3.0), Span::call_site())]);
-    let r = validate_duplicates(&items[..n], |_kind| String::new());
-    kani::cover!(true, "accepted");
-    assert!(!unsafe { EXPECT_REJECT }, "two validators of the same kind were accepted");
-    assert!(r.is_ok());
-    core::mem::forget(r);
-}
+// concrete kind triples (adjacent, non-adjacent and no duplicates), symbolic values
+macro_rules! dup_case { ($name:ident, $k0:expr, $k1:expr, $k2:expr) => {
+    #[kani::proof]
+    #[kani::unwind(5)]
+    #[kani::stub(syn::Error::new, reject)]
+    #[kani::stub(alloc::fmt::format, no_format)]
+    pub fn $name() {
+        let (k0, k1, k2): (u8, u8, u8) = ($k0, $k1, $k2);
+        unsafe { EXPECT_REJECT = k0 == k1 || k0 == k2 || k1 == k2; }
+        let items = ManuallyDrop::new([SpannedItem::new(float_validator(k0, kani::any()), Span::call_site()), SpannedItem::new(float_validator(k1, kani::any()), Span::call_site()),
+                                       SpannedItem::new(float_validator(k2, kani::any()), Span::call_site())]);
+        kani::cover!(true, "reached");
+        let r = validate_duplicates(&items[..], |_kind| String::new());
+        assert!(!unsafe { EXPECT_REJECT }, "two validators of the same kind were accepted");
+        assert!(r.is_ok());
+        core::mem::forget(r);
+    }
+} }
+dup_case!(c08_duplicates_adjacent_front, 0, 0, 2); dup_case!(c08_duplicates_adjacent_back, 1, 3, 3); dup_case!(c08_duplicates_non_adjacent, 2, 4, 2);
+dup_case!(c08_duplicates_non_adjacent_fin, 4, 1, 4); dup_case!(c08_duplicates_none, 0, 2, 4); dup_case!(c08_duplicates_none2, 3, 1, 4);
 
 // ------------------------------------------------------------------ string: len_char_min vs len_char_max, lowercase + uppercase
 fn string_validator(kind: u8, v: usize) -> StringValidator {
